@@ -26,7 +26,7 @@ func repoDir() string {
 var states = []string{"StepUpgrade", "StepTrafficRouting", "StepPaused", "StepReady", "BeforeStepUpgrade", "StepMetricsAnalysis"}
 
 // Families drawn for each property (weights by repetition).
-var families = []string{"deployment/canary", "deployment/canary", "deployment/bluegreen", "cloneset/partition", "cloneset/partition", "cloneset/bluegreen"}
+var families = []string{"deployment/canary", "deployment/canary", "deployment/bluegreen", "cloneset/partition", "cloneset/partition", "cloneset/bluegreen", "statefulset/partition", "advstatefulset/partition"}
 
 // ExtraFamilies is appended to by plug-ins that add workload kinds / controllers.
 var ExtraFamilies []string
